@@ -548,6 +548,10 @@ class Engine:
             r, m = self._query([z3.Not(zs)], self.obl_ms)
         if r == 'unknown':
             r, m = self._retry_fresh(z3.Not(zs))
+        if r == 'unknown' and self.round_log:
+            r, m = self._probe_ties(z3.Not(zs))
+            if r == 'sat':
+                rec['found_by'] = 'tie probing (negated obligation strengthened with "a rounding argument is an exact tie")'
         rec['t'] = round(time.time() - t0, 4)
         if r == 'unsat':
             rec['verdict'] = 'unsat'
@@ -572,6 +576,26 @@ class Engine:
 
     def ok(self, label, key=None):
         return self.check(z3.BoolVal(True), label, key=key)
+
+    def _probe_ties(self, neg):
+        """An obligation over rounded values stayed undecided.  Counterexamples of rounding properties sit at
+        ties: strengthen the negated obligation with 'the argument of one rounding is an exact tie' (and, for a
+        later rounding, 'an earlier one was inexact') and ask again -- a satisfying assignment of the
+        strengthened query is a genuine counterexample of the original one; unsat / unknown prove nothing."""
+        half = z3.Q(1, 2)
+        log = self.round_log[-4:]
+        probes = []
+        for i, (mi, yi, _) in enumerate(log):
+            d = yi - z3.ToReal(mi)
+            tie = z3.Or(d == half, d == -half)
+            probes.append(tie)
+            for (mj, yj, _) in log[:i]:
+                probes.append(z3.And(tie, yj != z3.ToReal(mj)))
+        for pr in reversed(probes):
+            r, m = self._query([neg, pr], min(self.obl_ms, 5000))
+            if r == 'sat':
+                return 'sat', m
+        return 'unknown', None
 
     def _retry_fresh(self, neg):
         """An obligation came back unknown: try a fresh non-incremental z3 solver,
@@ -655,6 +679,46 @@ class Engine:
             return m
         return None
 
+    def probe_models(self, limit=10):
+        """input assignments for concrete probing after a concretisation leak: a model of the path
+        condition plus perturbations of each rational input (tiny absolute / relative offsets, long
+        mantissas) that still satisfy the path condition"""
+        m = self.final_model()
+        if m is None:
+            return []
+        base = {}
+        for name, (kind, var, flav) in self.inputs.items():
+            v = z3_to_py(m.eval(var, model_completion=True))
+            if v is None:
+                return []
+            base[name] = v
+        out = [dict(base)]
+        eps = [Fraction(1, 10 ** 25), -Fraction(1, 10 ** 25), Fraction(1, 3 * 10 ** 20)]
+        rats = [n for n, (k, v, f) in self.inputs.items() if k == 'rat']
+        cands = []
+        for n in rats:
+            for e in eps:
+                c = dict(base)
+                c[n] = base[n] + e
+                cands.append(c)
+                if base[n] != 0:
+                    c2 = dict(base)
+                    c2[n] = base[n] * (1 + e)
+                    cands.append(c2)
+        if len(rats) >= 2:
+            c = dict(base)
+            c[rats[0]] = base[rats[0]] + eps[0]
+            c[rats[1]] = base[rats[1]] - eps[0]
+            cands.append(c)
+        for c in cands:
+            if len(out) >= limit:
+                break
+            cons = [self.inputs[n][1] == (q_val(v) if self.inputs[n][0] == 'rat' else int(v)) for n, v in c.items()]
+            r, _ = self._query(cons, min(self.feas_ms, 1000))
+            if r == 'sat':
+                out.append(c)
+        return [{k: enc_num(v) for k, v in c.items()} for c in out]
+
     # --------------------------------------------------------- observations
     def observe(self, label, value):
         self.obs.append((label, value))
@@ -700,6 +764,8 @@ class Engine:
                'stubs': self.stub_calls, 'trail': ''.join(self.trail[-60:])}
         if exc is not None:
             rec['exc'] = exc
+        if getattr(self, 'leak_info', None):
+            rec['leak'] = self.leak_info
         if funcs is not None:
             rec['funcs'] = funcs
         model = None
